@@ -347,9 +347,58 @@ def _restore_names(tree):
     return notes
 
 
+def _functions(tree):
+    for n in tree.body:
+        if isinstance(n, ast.FunctionDef):
+            yield n.name, n
+        elif isinstance(n, ast.ClassDef):
+            for mth in n.body:
+                if isinstance(mth, ast.FunctionDef):
+                    yield f"{n.name}.{mth.name}", mth
+
+
+def dump_locals(tree):
+    """name -> defining expression of the single-assignment locals of every function (frozen in known_py_locals.json)."""
+    return {q: {k: ast.unparse(v) for k, v in single_assignments(f).items()} for q, f in _functions(tree)}
+
+
+def _restore_locals(tree):
+    """N4: a frozen local that is gone and a local that is not frozen, defined by the same expression in the
+    same function, are one variable under two names; it gets the frozen name back."""
+    try:
+        known = json.load(open(os.path.join(os.path.dirname(os.path.abspath(__file__)), "known_py_locals.json")))
+    except (OSError, ValueError):
+        return []
+    notes = []
+    for q, f in _functions(tree):
+        kn = known.get(q)
+        if not kn:
+            continue
+        for _ in range(6):
+            cur = single_assignments(f)
+            assigned = {x.id for x in ast.walk(f) if isinstance(x, ast.Name) and isinstance(x.ctx, ast.Store)} | {a.arg for a in f.args.args}
+            missing = [k for k in kn if k not in assigned]
+            done = False
+            for name, val in cur.items():
+                if name in kn:
+                    continue
+                cands = [k for k in missing if kn[k] == ast.unparse(val)]
+                if len(cands) == 1:
+                    for x in ast.walk(f):
+                        if isinstance(x, ast.Name) and x.id == name:
+                            x.id = cands[0]
+                    notes.append(f"{q}: {name} is {cands[0]}")
+                    done = True
+                    break
+            if not done:
+                break
+    return notes
+
+
 def normalize_tree(tree):
     out = {"renamed": _restore_names(tree)}
     out.update({"walrus_hoisted": _hoist_walrus(tree), "helpers_expanded": _inline_helpers(tree)})
+    out["locals_restored"] = _restore_locals(tree)
     out["walrus_hoisted"] += _hoist_walrus(tree)
     out["ifs_inverted"] = _invert_ifs(tree)
     ast.fix_missing_locations(tree)
@@ -561,6 +610,12 @@ MUTATORS = {"set", "del", "aug", "call:clear", "call:pop", "call:popitem", "call
 
 
 def main():
+    if "--dump-locals" in sys.argv:
+        path = sys.argv[sys.argv.index("--dump-locals") + 1]
+        t = ast.parse(open(path).read())
+        _hoist_walrus(t)
+        print(json.dumps(dump_locals(t), indent=1, sort_keys=True))
+        return
     ap = argparse.ArgumentParser()
     ap.add_argument("--prop", default=PROP)
     ap.add_argument("--tier", default="quick")
@@ -745,6 +800,14 @@ def run_rules(m, r):
     UN = "_unresolved_arp_queries_cache"
     writes = [(k, n) for c, k, n in cache_accesses(probe) if c == UN and k in MUTATORS]
     r.floor("R20.2 pending-route writes in _probe_addr", len(writes), 1)
+    def empty_collection_init(node):
+        asg = getattr(node, "_parent", None)
+        if not isinstance(asg, ast.Assign):
+            return False
+        v = asg.value
+        return (isinstance(v, (ast.List, ast.Set, ast.Tuple)) and not v.elts) or (isinstance(v, ast.Dict) and not v.keys) or \
+            (isinstance(v, ast.Call) and isinstance(v.func, ast.Name) and v.func.id in ("list", "set", "dict", "deque") and not v.args)
+    writes = [(("init" if k == "set" and empty_collection_init(n) else k), n) for k, n in writes]
     for k, n in writes:
         r.check(k != "set", "R20.2", fn(probe), "a waiting route is added to the next hop's collection", m.pos(n), k,
                 "`cache[next_hop] = route_entry` keeps ONE waiting route per next hop: a second route through the same unresolved next hop replaces the first, which is never installed")
